@@ -43,3 +43,27 @@ package httpd
 //@   at after AuthorizeWrite#1: ghost write_authorised = callresult0 == nil
 //@   call serveWrite$2#1 requires a_write_runs_only_when_authorised: !auth_on || write_authorised
 //@   call AuthorizeWrite#1 requires authorised_for_the_database_that_is_written: callarg1 == database
+
+// The Prometheus remote endpoints. A remote write is handed to the points writer only after the write authorizer
+// accepted it for the database named in the request. A remote read reaches the store only after the query
+// authorizer granted read access to that database - which the code does only when the separate option
+// prom-read-auth-enabled is set (default off): recorded as a known finding, the obligation stays.
+//@ func (*Handler).servePromWrite
+//@   props C16
+//@   nosafety
+//@   dynamic_calls_modify_nothing
+//@   ghost write_authorised bool = false
+//@   ghost auth_on bool = true
+//@   at after Database#1: ghost auth_on = h.Config.AuthEnabled
+//@   at after AuthorizeWrite#1: ghost write_authorised = callresult0 == nil
+//@   call WritePoints#1 requires a_write_runs_only_when_authorised: !auth_on || write_authorised
+//@ func (*Handler).servePromRead
+//@   props C16
+//@   nosafety
+//@   panics_ok
+//@   dynamic_calls_modify_nothing
+//@   ghost read_authorised bool = false
+//@   ghost auth_on bool = true
+//@   at after Request.FormValue#2: ghost auth_on = h.Config.AuthEnabled
+//@   at after AuthorizeDatabase#1: ghost read_authorised = callresult0 == nil
+//@   call ReadFilter#1 requires a_read_runs_only_when_authorised: !auth_on || read_authorised
